@@ -4,6 +4,7 @@
    observation with oracles that do not go through the model's algorithms. *)
 From SC Require Export Base.Prelude Traits.Str Traits.Parent Traits.Vending Traits.FanSpeed Traits.ModeTrait
   Traits.EnterLeave Traits.Meter Traits.Publication Traits.Options Traits.Store Traits.VendingStore Traits.FanMask.
+From SC Require Export Msg.Msg Msg.Schema Msg.Path Masks.Get Traits.MeterMask.
 From Coq Require Import QArith Qabs.
 Open Scope Z_scope.
 
@@ -21,7 +22,57 @@ Inductive c20case :=
 | KPub (now : Z) (pre : option pub) (o : pubop) (obs : pout) (post : option pub) (hpre hpost : string)
 | KNew (model : Z) (dflt opts : list mopt) (panicked : bool) (obs : list rstate)
 | KVStore (pre : vstate) (names_ok : bool) (o : vop) (obs : vres) (post : vstate)
-| KFanMask (ps : list preset) (pre req : fan) (m : option fmask) (obs : fout) (post : fan).
+| KFanMask (ps : list preset) (pre req : fan) (m : option fmask) (obs : fout) (post : fan)
+| KMeterSeq (pre : mmeter) (o : mmop) (code : Z) (ret : option mmeter) (post : mmeter)
+| KSchema (dumped : schema).
+
+(* ---- meter with arbitrary update masks (paths) ---- *)
+Definition ts_eqb (a b : ts) : bool := (fst a =? fst b) && (snd a =? snd b).
+Definition mm_eqb (a b : mmeter) : bool :=
+  (mm_usage a =? mm_usage b) && option_eqb ts_eqb (mm_start a) (mm_start b) && option_eqb ts_eqb (mm_end a) (mm_end b).
+(* independent of [covers]/[touches]: a path can only reach field f when its first segment is f *)
+Definition path_heads (f : string) (ups : list path) : bool :=
+  existsb (fun u => match u with [] => true | s :: _ => String.eqb s f end) ups.
+Definition names_exactly (f : string) (ups : list path) : bool :=
+  existsb (fun u => match u with [s] => String.eqb s f | _ => false end) ups.
+Definition meter_seq_ok (pre : mmeter) (o : mmop) (code : Z) (ret : option mmeter) (post : mmeter) : bool :=
+  if negb (code =? 0) then mm_eqb post pre && match ret with None => true | Some _ => false end
+  else
+    option_eqb mm_eqb ret (Some post) &&
+    match o with
+    | MMRecord v t => mm_eqb post (mkMM v (mm_start pre) (Some (t, 0)))
+    | MMReset t => mm_eqb post (mkMM 0 (Some (t, 0)) (Some (t, 0)))
+    | MMUpdate None req => mm_eqb post req
+    | MMUpdate (Some ups) req =>
+        (path_heads "usage" ups || (mm_usage post =? mm_usage pre))
+        && (path_heads "start_time" ups || option_eqb ts_eqb (mm_start post) (mm_start pre))
+        && (path_heads "end_time" ups || option_eqb ts_eqb (mm_end post) (mm_end pre))
+        && (negb (names_exactly "usage" ups) || (mm_usage post =? mm_usage req))
+        && (negb (names_exactly "start_time" ups) || match mm_start req with None => match mm_start post with None => true | _ => false end
+                                                                          | Some _ => match mm_start post with Some _ => true | None => false end end)
+    end.
+Definition meter_seq_agrees (pre : mmeter) (o : mmop) (code : Z) (ret : option mmeter) (post : mmeter) : bool :=
+  mm_eqb post (mm_step pre o) &&
+  match o with
+  | MMUpdate um req =>
+      (code =? fst (mm_update um pre req)) &&
+      match mm_update_tree um pre req with
+      | Some (c, p) => (code =? c) && mm_eqb post p
+      | None => false
+      end
+  | _ => code =? 0
+  end.
+
+Definition skind_eqb (a b : skind) : bool :=
+  match a, b with KInt, KInt | KBool, KBool | KStr, KStr | KBytes, KBytes | KEnum, KEnum | KF32, KF32 | KF64, KF64 => true | _, _ => false end.
+Definition fdesc_eqb (a b : fdesc) : bool :=
+  String.eqb (fname a) (fname b) && (fnum a =? fnum b)
+  && match fcard a, fcard b with CSingular, CSingular | CList, CList | CMap, CMap => true | _, _ => false end
+  && match fkd a, fkd b with FScalar x, FScalar y => skind_eqb x y | FMsg x, FMsg y => String.eqb x y | _, _ => false end
+  && option_eqb skind_eqb (fkey a) (fkey b) && Bool.eqb (fexplicit a) (fexplicit b) && option_eqb String.eqb (foneof a) (foneof b).
+(* every hand-written message type is exactly what the Go descriptors say *)
+Definition schema_agrees (hand dumped : schema) : bool :=
+  forallb (fun e => match alookup (fst e) dumped with Some fs => list_eqb fdesc_eqb (snd e) fs | None => false end) hand.
 
 Definition children_eqb (a b : children) : bool :=
   list_eqb (fun x y => String.eqb (fst x) (fst y) && strs_eqb (snd x) (snd y)) a b.
@@ -477,6 +528,8 @@ Definition C20_ok (c : c20case) : bool :=
   | KNew model dflt opts panicked obs => new_ok model dflt opts panicked obs
   | KVStore pre names_ok o obs post => vstore_ok pre names_ok o obs post
   | KFanMask ps pre req m obs post => fan_mask_ok ps pre req m obs post
+  | KMeterSeq pre o code ret post => meter_seq_ok pre o code ret post
+  | KSchema _ => true
   end.
 
 Definition C20_guard (c : c20case) : bool :=
@@ -498,6 +551,7 @@ Definition C20_guard (c : c20case) : bool :=
   | KNew model dflt opts _ _ => config_wf (model_nres model) (dflt ++ opts)
   | KVStore pre _ _ _ _ => vstate_wf pre
   | KFanMask ps pre _ _ _ _ => presets_wf ps && fan_consistent ps pre
+  | KMeterSeq _ _ _ _ _ | KSchema _ => true
   end.
 
 Definition agrees (c : c20case) : bool :=
@@ -534,6 +588,8 @@ Definition agrees (c : c20case) : bool :=
   | KVStore pre _ o obs post => vstore_agrees pre o obs post
   | KFanMask ps pre req m obs post =>
       let '(o, p) := fan_update_masked ps pre req m in fout_eqb obs o && fan_eqb post p
+  | KMeterSeq pre o code ret post => meter_seq_agrees pre o code ret post
+  | KSchema dumped => schema_agrees meter_schema dumped
   end.
 
 Definition judge (c : c20case) : Z :=
